@@ -18,6 +18,7 @@ from pathlib import Path
 from collections import OrderedDict  # TODO: replace by dict
 
 from resolva import Resolver
+from resolva.utils import ResolvaException
 
 from spil.util.caching import lru_kw_cache as cache
 from spil.util.log import debug
@@ -56,11 +57,16 @@ def path_to_dict(
     pc = get_path_config(config)
     r = Resolver.get(pc.name)
 
-    if _type:
-        data = r.resolve_one(path, _type)
-        template = _type
-    else:
-        template, data = r.resolve_first(path)
+    try:
+        if _type:
+            data = r.resolve_one(path, _type)
+            template = _type
+        else:
+            template, data = r.resolve_first(path)
+    except ResolvaException as e:
+        # a field that the template repeats (folder and file name) has two different values
+        debug(f'Path "{path}" does not resolve ({e})')
+        return None, None
 
     if not data:
         return None, None
